@@ -48,7 +48,8 @@ def plan_C15(tier, seed):
                 "and_do, map, map_err, err_into, From<Result> and ResultExt::{err_into,and_also,and_do}, plus the closure-taking "
                 "combinators once more with a zero-sized value type () and once more with callables that capture 320 bytes by "
                 "value; six shapes of the table are evaluated a second time from a destructor while the thread is unwinding "
-                "from a panic (std::thread::panicking() is true there); the whole table is instantiated for several shapes of the "
+                "from a panic (std::thread::panicking() is true there), and - not under Miri - for the 300th time on the same "
+                "thread (combinators keep no state); the whole table is instantiated for several shapes of the "
                 "value/error types - thirteen - (4-byte; odd-sized (u32,(u8,u16)); 136-byte and 328-byte arrays, i.e. Parsed larger than 128 "
                 "bytes; String and Box payloads with drop glue; u128 and #[repr(align(64))] payloads, i.e. over-aligned; five more where the types that map / "
                 "and_then / err_into / map_err convert TO differ in size from the ones they convert FROM: widening 4->16, 16->32, "
@@ -63,7 +64,8 @@ def plan_C15(tier, seed):
         "jobs": jobs,
         "primary_jobs": ["table-chk"],
         "eval_counters": ["cells", "grammar_strings"],
-        "floors": {"cells": 2 * (13 + 6) * 131 + 2 * 6 * 131, "shapes": 2 * 13 + 6, "cells_evaluated_while_unwinding": 3 * 6 * 131,
+        "floors": {"cells": 2 * (13 + 6 + 6) * 131 + 2 * 6 * 131, "shapes": 2 * 13 + 6, "cells_evaluated_while_unwinding": 3 * 6 * 131,
+                   "table_repetitions_on_one_thread": 2 * 300,
                    "distinct_nontrivial": 13 * 131},
         "assumptions": ["the specification table in harness/src/c15.rs is written from the rustdoc of flussab::Parsed/ResultExt"],
     }
@@ -215,7 +217,8 @@ def plan_C11(tier, seed):
                 "values, buf_write_ptr(n)+advance_unchecked(m<=n), flush, flush_defer_err, check_io_error, drop; plus boundary "
                 "pairs: fill the buffer so that exactly s in 0..45 bytes are spare, then write a maximal-length integer of a "
                 "random type / a slice of s-1..s+1 bytes / buf_write_ptr(s-1..s+1)) on a real "
-                "DeferredWriter (one run in five after an earlier writer on the same thread lost its sink to a panic in the "
+                "DeferredWriter - also Write::write_vectored with 1..5 slices sized around the room left in the buffer, "
+                "repeated on the remainder until everything is accepted - (one run in five after an earlier writer on the same thread lost its sink to a panic in the "
                 "middle of a flush and was dropped by the unwind with bytes in its buffer; the sink also implements write_vectored with writev semantics - one call may take bytes from "
                 "several slices and stop anywhere -; injected sink errors draw their ErrorKind from 19 non-Interrupted kinds). Each history runs once over a non-failing sink (accept-all / short writes / short+Interrupted) "
                 "and then once per sink write call j that occurred (all j up to 24, sampled beyond) with the sink failing (or "
@@ -233,7 +236,7 @@ def plan_C11(tier, seed):
         "eval_counters": ["runs"],
         "floors": {"runs": q(tier, 20_000, 800_000), "sink_failures_injected": q(tier, 10_000, 400_000),
                    "ints_via_cold_path": 1000, "boundary_fills": 10_000, "writers_dropped_by_unwinding_from_a_client_panic": 2000,
-                   "runs_after_an_earlier_writer_lost_its_sink_to_a_panic": 2000, "buf_write_ptr_nonnull": 10_000, "int_type:i128": 1000, "int_type:u8": 1000,
+                   "runs_after_an_earlier_writer_lost_its_sink_to_a_panic": 2000, "client_write_vectored_ops": 50_000, "buf_write_ptr_nonnull": 10_000, "int_type:i128": 1000, "int_type:u8": 1000,
                    "distinct_nontrivial": q(tier, 10_000, 300_000)},
         "assumptions": ["the writer's capacity is learnt through buf_write_ptr on a fresh writer, not assumed"],
     }
@@ -562,7 +565,8 @@ def plan_C03(tier, seed):
                "choice:gate_inputs_given_smaller_first": 1000, "choice:comment": 1000,
                "choice:btor_symbol": 1000, "choice:btor_node_comment": 1000, "choice:btor_comment_line": 1000,
                "aiger_section_skipping_roundtrips": 50_000, "btor_documents_also_through_display": 20_000,
-               "choice:clause_with_more_than_4096_literals": 200, "choice:arbitrary_header_parsed_with_ignore_header": 50_000, "choice:btor_justice_with_more_than_4096_nodes": 30,
+               "choice:clause_with_more_than_4096_literals": 200,
+               "choice:aiger_writer_object_reused_for_a_second_document": 20_000, "choice:arbitrary_header_parsed_with_ignore_header": 50_000, "choice:btor_justice_with_more_than_4096_nodes": 30,
                "choice:btor_constant_with_more_than_4096_digits": 30, "choice:btor_symbol_longer_than_chunk": 30,
                "choice:btor_comment_longer_than_chunk": 30, "btor_const_candidates_with_non_ascii_characters": 1000,
                "distinct_nontrivial": q(tier, 400_000, 10_000_000)})
@@ -588,7 +592,8 @@ def plan_C03(tier, seed):
         "level": "exploration",
         "rule": "direction 1 (2/3 of the cases): typed values are built directly from abstract documents (never by parsing; a third of the "
                 "DIMACS documents with an arbitrary header whose counts do not fit the clauses, parsed back with "
-                "ignore_header(true)) - "
+                "ignore_header(true); a quarter of the AIGER documents is the second one written with its "
+                "writer object) - "
                 "CNF/WCNF/GCNF headers and clauses over all five literal types with extreme literals, weights and groups over "
                 "all of u64, empty clauses, with/without header; AIGER Aig (ascii write_aig) and OrderedAig (ascii and binary "
                 "write_ordered_aig) with every count 0/1/2/few/many independently (B,C,J,F larger than M-I-L and than L), all "
@@ -633,7 +638,8 @@ def plan_C10(tier, seed):
         "exhaustive": True,
         "rule": "the complete grid {cnf, wcnf, gcnf, btor2, aag section readers, aig section readers - with each of the nine AIGER "
                 "sections (inputs, latches, outputs, bad, constraints, justice sizes+literals, fairness, gates, symbols) in turn "
-                "being the long one; DIMACS with four stream shapes: clauses only / declared clause count, all clauses, then "
+                "being the long one, and with a consumer that takes every entry or only two entries of each section before "
+                "moving on (the section readers pass over the rest); DIMACS with four stream shapes: clauses only / declared clause count, all clauses, then "
                 "comment and blank lines for the rest of the stream / comment and blank lines for half of the stream in front "
                 "of the header / clauses split over lines around comments plus blocks of 3000 comment and blank lines every "
                 "1000 clauses; BTOR2 with three line mixes: mixed, symbol+comment on every line, comment lines between "
@@ -658,6 +664,7 @@ def plan_C10(tier, seed):
         "floors": dict({"streams": 2 * 192 + 2 * 48 + 2 * 72, "log_streams": 2 * 48, "raw_streams": 2 * 72, "streams_100x_bound": 150, "items": q(tier, 500_000_000, 4_000_000_000),
                         "distinct_nontrivial": 150},
                        **{"btor_profile:%d" % k: 16 for k in range(3)},
+                       **{"aiger_consumer:" + k: 60 for k in ["every_entry", "two_entries_per_section"]},
                        **{"log_profile:" + k: 32 for k in ["comment_lines_strict", "run_of_ignored_lines",
                                                             "mixed_with_value_lines"]},
                        **{"raw_style:" + k: 24 for k in ["request+advance", "request_byte_at_offset+advance",
